@@ -149,6 +149,25 @@ def run_tightcap(case, r, rng):
     with r.op('explicit_euler:tight-cap:call'):
         sol = ode.explicit_euler(op, x0t, list(steps), threshold=0, max_rank=cap, normalize=0, progress=False)
         compare_traj(r, 'explicit_euler:tight-cap', sol, want, x0t, dims)
+    # linearity: a state of tiny norm (1e-11) under the implicit schemes with the default relative threshold of the inner solver
+    sc_ = 1e-11
+    xt = sc_ * x0t
+    guess = tt_from(rand_cores(rng, dims, [1] * d, max_ranks(dims), c))
+    wi = [x0]; wt = [x0]
+    for hk in steps:
+        wi.append(np.linalg.solve(I - hk * A, wi[-1]))
+        wt.append(np.linalg.solve(I - 0.5 * hk * A, (I + 0.5 * hk * A) @ wt[-1]))
+    for tsolver in ('als', 'mals'):
+        with r.op('implicit_euler:tiny-state:call'):
+            sol = ode.implicit_euler(op, xt, guess, list(steps), tt_solver=tsolver, normalize=0, progress=False)
+            for k_ in range(1, len(sol)):
+                if meta_problem(sol[k_]) is None:
+                    r.close('implicit_euler:tiny-state:%s' % tsolver, vec(sol[k_]) / sc_, wi[k_], 1e-7, 'state %d, initial norm %g' % (k_, sc_))
+        with r.op('trapezoidal_rule:tiny-state:call'):
+            sol = ode.trapezoidal_rule(op, xt, guess, list(steps), tt_solver=tsolver, normalize=0, progress=False)
+            for k_ in range(1, len(sol)):
+                if meta_problem(sol[k_]) is None:
+                    r.close('trapezoidal_rule:tiny-state:%s' % tsolver, vec(sol[k_]) / sc_, wt[k_], 1e-7, 'state %d, initial norm %g' % (k_, sc_))
     h = 0.1
     S = sinh_series(A, h, 1)
     prev = x0 - sinh_series(A, h / 2, 1) @ ((I - 0.5 * h * A) @ x0)
